@@ -40,7 +40,8 @@ CHUNK = 8
 PROBES = ["compatible", "compatible_tls13", "compatible_tls12",
           "compatible_legacy", "incompatible", "purity_checked",
           "idempotence_checked", "validate_rejected", "second_connection",
-          "second_resumed", "invalid_value_rejected"]
+          "second_resumed", "invalid_value_rejected", "srp", "srp_boundary",
+          "srp_inside"]
 COMPONENTS_REAL = ["HandshakeSettings.validate, client+server handshakes"]
 COMPONENTS_STUB = ["socket", "os.urandom", "clock"]
 ASSUMPTIONS = ["honest peers, benign transport"]
@@ -93,11 +94,68 @@ def diff_snap(a, b):
     return out
 
 
+SRP_BITS = 1536      # group of the fixture verifier (sim/creds.py)
+
+
+def run_srp(job, ch, seed):
+    """SRP flavour: the key-size window of the client against the size of the
+    server's SRP group, values on and next to the boundaries."""
+    viol = []
+    probes = {"srp": 1}
+    mn = [512, 1023, 1024, SRP_BITS - 1, SRP_BITS, SRP_BITS + 1, 2048][
+        ch.draw(7, "srp.min")]
+    mx = [8193, SRP_BITS, SRP_BITS - 1, SRP_BITS + 1, 2048, 4096][
+        ch.draw(6, "srp.max")]
+    ver = [[3, 3], [3, 1], [3, 2]][ch.draw(3, "srp.ver")]
+    c = {"minKeySize": mn, "maxKeySize": mx, "minVersion": ver,
+         "maxVersion": ver}
+    sc = {"flavour": "srp", "cset": c,
+          "sset": {"minVersion": ver, "maxVersion": ver}}
+    ctx = json.dumps(sc, sort_keys=True)
+    sim = nodes.new_run(seed, chooser=ch, max_steps=100000)
+    compat = mn <= SRP_BITS <= mx
+    valid = mn <= mx
+    try:
+        pair = nodes.Pair(sim, sc, policy="random",
+                          wb_budget=kernel.Budget(10),
+                          delay_budget=kernel.Budget(10))
+        oc, os_, st = pair.handshake()
+    except ValueError:
+        pair = None
+        oc = os_ = None
+    both = oc is not None and oc.kind == "ok" and os_.kind == "ok"
+    if compat and valid:
+        probes["compatible"] = 1
+        probes["srp_boundary" if SRP_BITS in (mn, mx) else "srp_inside"] = 1
+        if not both:
+            e = None if oc is None else (oc.exc if oc.kind == "exc"
+                                         else os_.exc)
+            viol.append({"rule": "compatible_did_not_connect",
+                         "sig": "srp|%s|%s" % (type(e).__name__, getattr(
+                             e, "description", "")),
+                         "msg": "the SRP group (%d bits) lies inside the "
+                         "client's key-size window [%d, %d] but the "
+                         "handshake failed: client=%r server=%r %s" % (
+                             SRP_BITS, mn, mx, oc and oc.exc,
+                             os_ and os_.exc, ctx)})
+    elif valid and both:
+        viol.append({"rule": "policy_not_enforced", "sig": "srp|keysize",
+                     "msg": "the SRP group (%d bits) lies outside the "
+                     "client's key-size window [%d, %d] but the handshake "
+                     "completed %s" % (SRP_BITS, mn, mx, ctx)})
+    else:
+        probes["incompatible"] = 1
+    return _res(job, ch, sim, pair, sc, viol, probes, compat and valid,
+                "srp:%s:%s" % (mn, mx))
+
+
 def run(job, streams=None):
     from tlslite.errors import TLSAlert
     seed = job["seed"]
     ch = kernel.Chooser(seed=seed) if streams is None else \
         kernel.Chooser(streams=streams)
+    if ch.draw(12, "flav.srp") == 1:
+        return run_srp(job, ch, seed)
     # half of the runs: server settings derived from the client's so that
     # overlapping policies are frequent
     c = lattice.draw_settings(ch, "c", legacy=bool(ch.draw(2, "legacy")))
